@@ -163,6 +163,56 @@ pub fn run(out: &mut Out, thorough: bool, seed: u64) {
             }
         }
     }
+    // deep levels: sparse histories (one to three candidates per level) over 200-bit inputs, with steps that land on
+    // and around the word-size levels 31/32, 63/64, 127/128; each honest step, a step whose candidate leaves its
+    // ancestor, and a repeated level
+    for _ in 0..(if thorough { 400 } else { 60 }) {
+        let mut hist: Vec<Vec<Vec<bool>>> = vec![];
+        let stops: Vec<usize> = {
+            let mut v: Vec<usize> = vec![1 + rng.below(20) as usize];
+            for w in [32usize, 64, 128] {
+                v.push(w - 1 + rng.below(3) as usize);
+                v.push(w + 1 + rng.below(4) as usize);
+            }
+            v.push(190 + rng.below(10) as usize);
+            v.sort();
+            v.dedup();
+            v
+        };
+        let mut cur: Vec<Vec<bool>> = (0..1 + rng.below(3)).map(|_| (0..stops[0]).map(|_| rng.below(2) == 1).collect()).collect();
+        cur.sort();
+        cur.dedup();
+        for w in stops.windows(2) {
+            hist.push(cur.clone());
+            let add = w[1] - w[0];
+            let mut next: Vec<Vec<bool>> = cur
+                .iter()
+                .map(|p| {
+                    let mut q = p.clone();
+                    q.extend((0..add).map(|_| rng.below(2) == 1));
+                    q
+                })
+                .collect();
+            next.sort();
+            next.dedup();
+            valid_case(out, &next, &hist);
+            // one candidate leaves its ancestor (a bit inside the ancestor's part is flipped)
+            let mut bad = next.clone();
+            let i = rng.below(bad.len() as u64) as usize;
+            let j = rng.below(w[0] as u64) as usize;
+            bad[i][j] = !bad[i][j];
+            bad.sort();
+            bad.dedup();
+            valid_case(out, &bad, &hist);
+            // a fresh, unrelated candidate of the right length
+            let fresh: Vec<Vec<bool>> = vec![(0..w[1]).map(|_| rng.below(2) == 1).collect()];
+            valid_case(out, &fresh, &hist);
+            // the same level again
+            valid_case(out, &cur, &hist);
+            cur = next;
+        }
+        out.count("deep-histories");
+    }
     // constructor: subsets in every order, duplicates, mixed lengths, degenerate and maximal lengths
     let pool: Vec<Vec<bool>> = vec![vec![], vec![false], vec![true], vec![false, false], vec![false, true], vec![true, false], vec![true, true], vec![true, true, false]];
     ctor_case(out, &[]);
